@@ -17,6 +17,18 @@ COMPONENTS = {
                  'scheduler at API-call granularity (no threads; the '
                  'property promises nothing about thread safety)'],
     },
+    'optsim': {
+        'real': ['optiland lens, variables (all nine types), operands, '
+                 'OptimizationProblem, the five optimiser front ends, undo()',
+                 'config R: scipy minimize / least_squares / dual_annealing '
+                 '/ differential_evolution (seeded through rng=)'],
+        'stub': ['config S: the optimiser driver (StubDriver: arbitrary '
+                 'recorded evaluation order within the scipy contract)',
+                 'multi-process worker pool of differential evolution '
+                 '(SimPool: pickled copy per chunk, seeded chunk order, '
+                 'duplicated tasks); a real multi-process run is not part of '
+                 'the verdict'],
+    },
 }
 
 ASSUMPTIONS = {
@@ -51,6 +63,25 @@ ASSUMPTIONS = {
         '10 x the surface tolerance when an iterative surface is present',
         'no client edits the lens; pre-emption inside a call (threads) is '
         'not simulated',
+    ],
+    'C14': [
+        'the problem is admissible: bounds contain the starting value, a '
+        'quantity overwritten by a pickup or a solve is not also a variable, '
+        'radius variables sit on curved surfaces, BFGS / CG (which ignore '
+        'bounds) are only used without bounds',
+        'stub driver contract: x0 (clipped into the bounds) evaluated first, '
+        'every evaluation inside the bounds, best evaluated point returned '
+        'with its value, at least one evaluation after the best one',
+        'when real scipy hands back an (x, fun) pair in which fun is not the '
+        'value it obtained at x (L-BFGS-B after a failed line search), the '
+        '"reproduces the returned objective" and "not worse" clauses are '
+        'skipped for that call; the state and bounds clauses are still '
+        'checked',
+        'values == result.x to 1e-11 relative (plus position round-off for '
+        'thickness); objective reproduced to 1e-6 relative; not-worse up to '
+        'the merit function\'s own round-off floor',
+        'optimiser exceptions are not flagged (the statement is conditioned '
+        'on "when any optimiser returns")',
     ],
     'C07': [
         'only the clause "the library\'s own system-scaling operation '
